@@ -192,6 +192,10 @@ func c02seq(c *Ctx, m *Module) {
 func c02atoms(assign map[string]tri) func(e ast.Expr) (tri, bool) {
 	return func(e ast.Expr) (tri, bool) {
 		switch x := e.(type) {
+		case *ast.Ident:
+			if v, ok := assign["$"+x.Name]; ok {
+				return v, true
+			}
 		case *ast.SelectorExpr:
 			if v, ok := assign[x.Sel.Name]; ok {
 				return v, true
@@ -284,6 +288,14 @@ func c02failers(c *Ctx, m *Module) {
 			rU := envU.evalFacts(fs)
 			c.Check(rU == triF, rule, cons+"#unsure", site.Node.Pos(), m, "guard is false when the batch is unsureIfProduced (idempotent, no cancellation opt-in)",
 				"the conditions controlling this failAllRecords call do not exclude a batch whose outcome is unknown (unsureIfProduced): its records could be failed although the broker appended them")
+			if cat == "guarded-unsure-only" {
+				// the retry handler may fail records only when its caller saw a per-batch
+				// response (canFail): with canFail == false the outcome is unknown
+				envF := &triEnv{f: site.Fn, atom: c02atoms(map[string]tri{"$canFail": triF, "allowIdempotentProduceCancellation": triF, "disableIdempotency": triF, "idempotent()": triT})}
+				rF := envF.evalFacts(fs)
+				c.Check(rF == triF, rule, cons+"#no-response", site.Node.Pos(), m, "guard is false when the request got no per-batch response (canFail == false)",
+					"the conditions controlling this failAllRecords call do not exclude canFail == false (request died without a response, e.g. while aborting): a batch the broker may have appended is failed and its sequence numbers are reused by the next batch, which the broker then swallows as a duplicate")
+			}
 			if cat == "guarded" {
 				envC := &triEnv{f: site.Fn, atom: c02atoms(map[string]tri{"canFailFromLoadErrs": triF, "allowIdempotentProduceCancellation": triF, "disableIdempotency": triF, "idempotent()": triT})}
 				rC := envC.evalFacts(fs)
